@@ -29,6 +29,10 @@ class Unsupported(EngineSignal):
     pass
 
 
+class LoopBound(EngineSignal):
+    """a loop exceeded the iteration bound of the exploration"""
+
+
 class IntegerModel(Unsupported):
     """a no-wrap side condition of the 256-bit integer model could not be established"""
 
